@@ -794,3 +794,38 @@ def true_return_requirements(body):
             req[b] = hit[0][3]
             out.append(req)
     return out
+
+
+def loop_first_match(body, adt, field):
+    """Explicit-loop form of a first-match search over <adt>.<field>: a loop driven by Iterator::next on an in-order chain
+    from the field that is left (break / return) on a path dominated by the EQUAL arm of a comparison involving the loop
+    element. Returns [(loop, cmp_block, other-side origins)]."""
+    import loops as LP
+    import tables as T
+    out = []
+    for L in LP.find_loops(body):
+        if L.driver is None:
+            continue
+        t = body.blocks[L.driver]["term"]
+        chains = [(f, ch) for (f, ch) in receiver_chains(body, t["args"][0]) if f[1] == field and (f[0] == adt or f[0].endswith("::" + adt))]
+        if not chains:
+            continue
+        if any(T.classify(n) == "order-destroying" for _, ch in chains for n in ch):
+            continue
+        for (b, ct, fr, is_eq) in comparison_calls(body):
+            if b not in L.blocks:
+                continue
+            o0, o1 = origins(body, ct["args"][0]), origins(body, ct["args"][1])
+            el0 = any(o[0] == "call" and o[1] == L.driver for o in o0)
+            el1 = any(o[0] == "call" and o[1] == L.driver for o in o1)
+            if el0 == el1:
+                continue
+            other = o1 if el0 else o0
+            for (sb, tt, ft) in bool_arms(body, b):
+                eq_arm = tt if is_eq else ft
+                # some exit of the loop is dominated by the equal arm, and the equal arm cannot return to the header
+                exits = [(x, s) for (x, s) in L.exits if s == eq_arm or body.dominates(eq_arm, s) or body.dominates(eq_arm, x) or x == eq_arm]
+                back = path_between_avoiding(body, [eq_arm], [L.header], [])
+                if exits and back is None:
+                    out.append((L, b, other))
+    return out
